@@ -370,7 +370,7 @@ pub fn run_contexts(out: &mut Out, cfg: &Cfg, seed: u64, n: usize) {
     let mut r = Rng::new(seed);
     let specials = ["-3", "+7", "-0.5", "1.5", "-", "+", "*", "?", "!", "a-b", "1-2", "x+1", "$", "$1", "007", "1e5", "...", "a.b", "3.", ".5",
                     "1 2", "1.5 2", "12 ", " 12", "- 3", "12\u{a0}", "1\u{2003}2", "1\t2", "+", "+ 7", "7+", "-.5", "5.", "0", "-0", "9223372036854775807", "9223372036854775808", "-9223372036854775808",
-                    "$Ω", "$é1", "$_x", "$_", "\\,", "a\\,b", "\"1 2\"", "\"12\"",
+                    "$Ω", "$é1", "$_x", "$_", "\\,", "a\\,b", "\"1 2\"", "\"12\"", "a\\b", "OK\\, sure", "\\5", "1\\2", "x\\;y", "\\a",
                     "$X + 1", "1 + 2", "$A * $B", "a - b", "6 / 3", "1.5 + $X",
                     "555-1234", "2023-01-05", "10+20", "1.5-2.5", "7-", "-7-", "1e-5", "3-a", "a-3", "--3", "+-3"];
     for i in 0..n {
@@ -407,7 +407,11 @@ pub fn run_contexts(out: &mut Out, cfg: &Cfg, seed: u64, n: usize) {
         if cfg.want("C20") {
             // a text with a top-level comma / bar / bracket is several things in a larger context: only compare single terms
             // one term text: judged whenever some context accepts it (a context that rejects or panics while another accepts is a difference too)
-            let single = res.iter().any(|x| x.starts_with("ok ")) && !text.contains(',') && !text.contains('|') && !text.contains(" = ") && !text.contains(" + ") && !text.contains(" - ") && !text.contains(" * ") && !text.contains(" / ");
+            // commas that are escaped by a backslash do not separate anything
+            let unescaped = { let cs: Vec<char> = text.chars().collect(); let mut o = String::new(); let mut i = 0;
+                while i < cs.len() { if cs[i] == '\\' && i + 1 < cs.len() { i += 2; o.push('x'); } else { o.push(cs[i]); i += 1; } } o };
+            let escape_inside = text.contains('\\') && text.chars().count() > 2;
+            let single = res.iter().any(|x| x.starts_with("ok ")) && !unescaped.contains(',') && !text.contains('|') && !text.contains(" = ") && !text.contains(" + ") && !text.contains(" - ") && !text.contains(" * ") && !text.contains(" / ");
             let arith = [" + ", " - ", " * ", " / "].iter().any(|op| text.contains(op)) && !text.contains(',') && !text.contains('|') && !text.contains(" = ");
             if arith && matches!(alone, Parsed::Term(Unifiable::SFunction{..})) {
                 // an arithmetic expression: a function term alone; must be the same function term everywhere
@@ -420,7 +424,8 @@ pub fn run_contexts(out: &mut Out, cfg: &Cfg, seed: u64, n: usize) {
                 let all_same = res.iter().all(|x| *x == res[0]);
                 let names = ["alone", "as argument", "as list element", "as infix operand", "as query argument", "as an argument after a float", "as an argument among other arguments", "as a list element after a float"];
                 let k = res.iter().position(|x| *x != res[0]).unwrap_or(0);
-                out.oracle(id, "C20", all_same, &format!("`{}` {} is {} but {} it is {}", text, names[0], crate::tools_pretty(&res[0]), names[k], crate::tools_pretty(&res[k])));
+                let what = if escape_inside { "text with a backslash escape inside it: " } else { "" };
+                out.oracle(id, "C20", all_same, &format!("{}`{}` {} is {} but {} it is {}", what, text, names[0], crate::tools_pretty(&res[0]), names[k], crate::tools_pretty(&res[k])));
             }
         }
     }
